@@ -1149,6 +1149,36 @@ def _sh_rmtree(path, ignore_errors=False, onerror=None, *a, **kw):
 REAL_RMTREE = shutil.rmtree
 
 
+def _sh_exec(source, globals=None, locals=None, /, **kw):
+    """builtins.exec: source text executed by the simulated program (COND files, include()d files, the standard
+    library of task definitions) is user code that runs on the main thread like any other - it gets instants and
+    check points too, so a signal or a kill can land while it is being evaluated"""
+    s = CUR
+    if globals is None:
+        f = sys._getframe(1)
+        globals = f.f_globals
+        if locals is None:
+            locals = f.f_locals
+    if s is not None and is_main() and isinstance(source, (str, bytes)) and MONITOR.enabled:
+        try:
+            source = compile(source, "<cond>", "exec")
+        except SyntaxError:
+            return REAL_EXEC(source, globals, locals, **kw)      # let the real exec raise it the usual way
+        seen = set()
+        Monitor._codes_of(source, seen)
+        E = MONITOR.E
+        for c in seen:
+            MONITOR.mon.set_local_events(MONITOR.TOOL, c, E.LINE | E.PY_START | E.CALL)
+    if locals is None:
+        return REAL_EXEC(source, globals, **kw)
+    return REAL_EXEC(source, globals, locals, **kw)
+
+
+import builtins as _builtins
+
+REAL_EXEC = _builtins.exec
+
+
 def _sh_cpu_count():
     s = CUR
     if s is None:
@@ -1331,6 +1361,7 @@ def install():
     multiprocessing.cpu_count = _sh_cpu_count
     os.mkdir = _sh_mkdir
     shutil.rmtree = _sh_rmtree
+    _builtins.exec = _sh_exec
     os.symlink = _fs_logger("symlink", REAL.symlink, 1)
     os.unlink = _fs_logger("unlink", REAL.unlink, 0)
     concurrent.futures.ThreadPoolExecutor = _ExecutorSwitch
@@ -1955,6 +1986,8 @@ class Sim:
             return
         if int(signal.SIGTERM) in self.registered:
             self.cp += 1
+            if code is not None and code.co_filename == "<cond>":
+                self.stall_cps.append(self.cp)      # (check points inside user code: sampled densely as well)
             sp = self.sig_plan
             if sp is not None and self.cp == sp[0]:
                 self.sig_plan = None
